@@ -41,6 +41,8 @@ def gen_case(rng: Rng, i: int, tier: str):
     r = rng.sub("k")
     arc = rsess.gen_archive(rng.sub("arc"), tier, want_multi=True, encrypted=False, want_dirs=None if r.chance(0.5) else False, maxlen=1500)
     damage = r.wpick([(5, None), (4, "flip"), (2, "flip_many"), (2, "unwritable")])
+    if rng.sub("reopen").chance(0.06):
+        damage = "reopen_fails"
     nsched = 6 if tier == "quick" else 24
     scheds = []
     for k in range(nsched):
@@ -115,7 +117,7 @@ def _factory(sched, fail_name=None):
     return F()
 
 
-def _run_threads(py7zr, image, strat, sink, outdir, fail_name, nsessions=1):
+def _run_threads(py7zr, image, strat, sink, outdir, fail_name, nsessions=1, open_faults=None):
     """One thread-parallel extraction under a fresh scheduler.  Returns (outcome, outputs, sched)."""
     rng = Rng(strat["seed"], "sched")
     sched = Scheduler(rng=rng, replay=strat.get("replay"), strategy=strat)
@@ -126,6 +128,8 @@ def _run_threads(py7zr, image, strat, sink, outdir, fail_name, nsessions=1):
 
     fs = SimFS(hook=hook)
     fs.add(rsess.READ_PATH, image)
+    if open_faults:
+        fs.open_faults = dict(open_faults)
     import py7zr.py7zr as P
 
     extra = [(P, "Thread", make_thread_class(sched)), (P, "queue", make_queue_module(sched)), (P, "time", SchedTime(sched))]
@@ -161,6 +165,7 @@ def _run_threads(py7zr, image, strat, sink, outdir, fail_name, nsessions=1):
             # caller's back: recorded before the run is torn down
             sched.leftover = [t.name for t in sched.threads[1:] if t.state != "done" and not t.daemon and not t.name.startswith("caller")]
             sched.shutdown()
+    sched.open_faults_fired = getattr(fs, "open_faults_fired", 0)
     return results, dead, sched
 
 
@@ -303,6 +308,7 @@ def run_case(case):
     fail_name = None
     must_raise = False
     dmg_desc = None
+    open_faults = None
     ref = built.ref
     pi = ref.main["packinfo"]
     if case["damage"] in ("flip", "flip_many"):
@@ -336,6 +342,12 @@ def run_case(case):
             except ref7z.Unsupported:
                 must_raise = False
             res["faults"]["worker_damaged_folder"] = 1
+    elif case["damage"] == "reopen_fails":
+        # the workers open the archive by name for themselves: the k-th of those opens fails (file renamed away, descriptor
+        # table full).  Only the thread-parallel variant has such opens; whether the fault fired is read off the device.
+        open_faults = {1 + r.randrange(built.nfolders): r.pick([2, 13, 24])}
+        dmg_desc = ("reopen_fails", tuple(sorted(open_faults.items())))
+        res["faults"]["worker_reopen_fails"] = 1
     elif case["damage"] == "unwritable" and case["sink"] == "factory" and model_products:
         fail_name = r.pick(sorted(model_products))
         must_raise = True
@@ -382,12 +394,13 @@ def run_case(case):
 
     try:
         # sequential reference path (stream)
-        o = _run_plain(py7zr, image, "stream", case["sink"], outdir, fail_name)
-        res["evals"] += 1
-        judge("sequential", o)
-        log.append(("seq", o[0], type(o[1]).__name__))
+        if open_faults is None:
+            o = _run_plain(py7zr, image, "stream", case["sink"], outdir, fail_name)
+            res["evals"] += 1
+            judge("sequential", o)
+            log.append(("seq", o[0], type(o[1]).__name__))
         # process-parallel
-        if case.get("mp"):
+        if case.get("mp") and open_faults is None:
             o = _run_plain(py7zr, image, "path", case["sink"], outdir, fail_name, mp=True, order_seed=case["dseed"])
             res["evals"] += 1
             judge("processes", o)
@@ -397,8 +410,13 @@ def run_case(case):
         for si, strat in enumerate(case["scheds"]):
             if case.get("only_sched") is not None and si != case["only_sched"]:
                 continue
-            results, dead, sched = _run_threads(py7zr, image, strat, case["sink"], outdir, fail_name)
+            results, dead, sched = _run_threads(py7zr, image, strat, case["sink"], outdir, fail_name, open_faults=open_faults)
             res["evals"] += 1
+            if open_faults is not None:
+                # the failed open must reach the caller exactly when it happened
+                must_raise = bool(sched.open_faults_fired)
+                outcomes[:] = []
+                res["probes"]["worker_reopen_fault_fired"] = max(res["probes"].get("worker_reopen_fault_fired", 0), 1 if must_raise else 0)
             if dead is not None:
                 viol("deadlock", "threads", "scheduler found no runnable thread: %s (strategy %r)" % (dead, strat), variant="threads")
             elif getattr(sched, "leftover", None):
